@@ -26,6 +26,7 @@
      7 "chain" four-bead chains A1-B-B-A2 with bond, angle and dihedral distributions (negative minimum),
                non-bonded interactions selected by the wildcard pattern "A*", decimal bin steps, and a
                bonded interaction inside an IMC group
+     8/9 "nc"  ranges that are not a multiple of the step, in the two admissible readings (see ScenNc)
      6 "tric"  strongly skewed triclinic boxes (a = (ax,0,0), b = (+-ax/2, by, 0), c = (0,0,cz),
                ax 19-22 nm, by 4-4.5 nm): |b| is more than twice the box width along b; the A-A range
                reaches 1.9375 nm with cutoff 2 nm = half the smallest height
@@ -329,6 +330,45 @@ ScenChain(s) ==
                   Bonded("dih", "dihedral", ld, "none", <<>>)>>,
       frames |-> frames, doimc |-> TRUE, intra |-> FALSE]
 
+\* ---- families 8 / 9: ranges whose length is not a multiple of the step ----------------------------------
+\* The options file gives min, max = min + (k + f) step with f in {1/4, 1/2, 3/4} (umaxq), and step (usq).
+\* The statement ("pairs nearest to the bin centre, exact shell volume, ideal gas gives 1"; "unit integral")
+\* fixes the result once the bin centres are known, but not where k + 1 centres go in such a range.  Two
+\* consistent readings exist and both are admitted (the engine accepts a run that agrees with either):
+\*   family 8 "truncate": centres min + i step, i = 0..k  (the grid min:step:max used by all other VOTCA tools)
+\*   family 9 "stretch":  centres min + i h, h = (max - min)/k, bins h wide (the layout HistogramNew builds)
+\* Same seed => same topology, trajectory and options text; only the effective layout differs.  The numbers
+\* are chosen so that h is a whole number of q (den = 16, q = 1/128 nm).  <<mq, usq, k, extra>>:
+NcLayouts == << <<0, 16, 4, 8>>, <<8, 16, 4, 4>>, <<24, 16, 4, 12>>, <<0, 32, 4, 16>>, <<16, 32, 4, 8>>, <<40, 12, 3, 6>>,
+                <<16, 32, 1, 16>>, <<0, 16, 8, 8>> >>      \* the 7th has step > (max - min)/2: two bins
+NcEff(c, stretch) ==
+  [den |-> 16, mq |-> c[1], sq |-> IF stretch THEN (c[3] * c[2] + c[4]) \div c[3] ELSE c[2], n |-> c[3] + 1]
+NcInter(r, c) == [r EXCEPT !.decoy = r.n] @@ [umaxq |-> c[1] + c[3] * c[2] + c[4], usq |-> c[2]]
+ScenNc(s, stretch) ==
+  LET NA == 5 + Pick(s, 1, 4)
+      ND == 2                                      \* two B-B dimers
+      F == NFrames(s)
+      frames == [f \in 1..F |->
+                   LET st == Sites(s, 100 * f, NA + ND, 216, {})
+                       off == Offset(s, f, -8, 40)
+                       rnd == [b \in 1..(NA + ND) |-> Coord(st[b], <<6, 6, 6>>, 2, off)]
+                       dim == [b \in 1..(2 * ND) |->
+                                 LET m == (b + 1) \div 2 IN
+                                 IF b % 2 = 1 THEN rnd[NA + m]
+                                 ELSE VAdd(rnd[NA + m], PickSeq(s, 100 * f + 10 * m + 1, DirSeq))]
+                   IN [box |-> Box(s, f), pos |-> SubSeq(rnd, 1, NA) \o dim]]
+      c1 == PickSeq(s, 20, NcLayouts)
+      c2 == PickSeq(s, 21, NcLayouts)
+      cb == PickSeq(s, 22, << <<8, 16, 2, 4>>, <<4, 8, 3, 6>>, <<12, 16, 1, 8>> >>)
+  IN [kind |-> IF stretch THEN 9 ELSE 8, seed |-> s,
+      mols |-> <<Single("MA", "A", NA),
+                 [name |-> "DI", nmols |-> ND, beads |-> <<[name |-> "B1", type |-> "B"], [name |-> "B2", type |-> "B"]>>]>>,
+      bonded |-> <<[kind |-> "bond", name |-> "bnd", mol |-> "DI", beads |-> << <<"B2", "B1">> >>]>>,
+      inter |-> <<NcInter(Nb("A-A", "A", "A", NcEff(c1, stretch), "none", <<>>), c1),
+                  NcInter(Nb("A-B", "A", "B", NcEff(c2, stretch), "none", <<>>), c2),
+                  NcInter(Bonded("bnd", "bond", NcEff(cb, stretch), "none", <<>>), cb)>>,
+      frames |-> frames, doimc |-> FALSE, intra |-> FALSE]
+
 Scenario(k, s) ==
-  CASE k = 1 -> ScenSame(s) [] k = 2 -> ScenTwo(s) [] k = 3 -> ScenMol(s) [] k = 4 -> ScenTb(s) [] k = 5 -> ScenProbe(s) [] k = 6 -> ScenTric(s) [] k = 7 -> ScenChain(s)
+  CASE k = 1 -> ScenSame(s) [] k = 2 -> ScenTwo(s) [] k = 3 -> ScenMol(s) [] k = 4 -> ScenTb(s) [] k = 5 -> ScenProbe(s) [] k = 6 -> ScenTric(s) [] k = 7 -> ScenChain(s) [] k = 8 -> ScenNc(s, FALSE) [] k = 9 -> ScenNc(s, TRUE)
 =============================================================================
